@@ -498,9 +498,9 @@ func generate(prop string, fl *hx.Flags) []unit {
 	}
 	// lease scenarios (lease.go): locks held across lease periods on the un-gated store, part of C01
 	if prop == "C01" {
-		nlease := 16
+		nlease := 20
 		if fl.Tier == "thorough" {
-			nlease = 80
+			nlease = 100
 		}
 		for i := 0; i < nlease; i++ {
 			id++
